@@ -7,7 +7,7 @@ BIN = os.path.join(BUILD, "bin")
 NUM_RULE = ("rapidcheck generates a fixed-length vector of 64-bit entropy words per case; a per-solution recipe turns it into an "
             "assignment of EVERY registered parameter (independently; one third log-scaled over 1e-3..1e3, admissibility by construction) "
             "and a point; the library is evaluated on a fresh handle and compared with nested forward-mode AD in binary128 of the "
-            "documented fields under the textbook operator, tolerance |lib-ref| <= 32*eps(Scalar)*mag. "
+            "documented fields under the textbook operator, tolerance |lib-ref| <= 64*eps(Scalar)*mag. "
             "A case is non-trivial when no parameter is 0 or 1, no two parameters coincide (relative gap > 1e-9) and all coordinates are "
             "distinct and non-zero; distinct_nontrivial counts distinct hashes of (solution, scalar type, all parameter bits, point bits) "
             "of such cases; evaluations counts (case, evaluator) comparisons.")
@@ -15,7 +15,7 @@ NUM_RULE = ("rapidcheck generates a fixed-length vector of 64-bit entropy words 
 NUM_ASSUME = [
     "the reference fields are the documented closed forms (doxygen/solutions/*.page, class comments); where the API exposes a field the same run ties it to the reference",
     "libquadmath's binary128 elementary functions are accurate to far better than 2^-64",
-    "tolerance constant K=32 on eps*mag with mag from running magnitude analysis (first-order inside field definitions, compounding in operator products)",
+    "tolerance constant K=64 on eps*mag with mag from running magnitude analysis (first-order inside field definitions, compounding in operator products)",
     "parameters are read back through masa_get_param, so the oracle sees the values the library holds",
 ]
 
@@ -45,20 +45,20 @@ def num_check(pid, cases_quick, cases_thorough, variants=("base",), min_nt=(200,
 
 
 CHECKS = {}
-CHECKS["C01"] = num_check("C01", 10000, 120000)
-CHECKS["C02"] = num_check("C02", 4000, 48000)
-CHECKS["C03"] = num_check("C03", 3200, 38400)
-CHECKS["C04"] = num_check("C04", 20000, 240000)
-CHECKS["C05"] = num_check("C05", 8000, 96000)
-CHECKS["C06"] = num_check("C06", 40000, 480000)
-CHECKS["C07"] = num_check("C07", 6400, 76800)
-CHECKS["C08"] = num_check("C08", 16000, 192000)
+CHECKS["C01"] = num_check("C01", 10000, 160000)
+CHECKS["C02"] = num_check("C02", 4000, 100000)
+CHECKS["C03"] = num_check("C03", 3200, 100000)
+CHECKS["C04"] = num_check("C04", 20000, 600000)
+CHECKS["C05"] = num_check("C05", 8000, 250000)
+CHECKS["C06"] = num_check("C06", 40000, 1200000)
+CHECKS["C07"] = num_check("C07", 6400, 200000)
+CHECKS["C08"] = num_check("C08", 16000, 500000)
 CHECKS["C09"] = num_check("C09", 1200, 14400, variants=("base", "opt"))
 
 C20_RULE = ("for each of 20 (richer, simpler) solution pairs and both scalar types rapidcheck generates the simpler solution's full parameter "
             "assignment and point plus the richer solution's remaining parameters; shared parameters are copied, the specialising ones are set to 0 "
             "(z-amplitudes and the w field; mu = k = 0; temporal amplitudes; A_t..D_t; k_1,k_2,cp_1,cp_2); both solutions live on two handles of one "
-            "process and are evaluated alternately; corresponding sources must agree within 32*eps*(mag_a+mag_b), the AD oracle supplying the scale only. "
+            "process and are evaluated alternately; corresponding sources must agree within 64*eps*(mag_a+mag_b), the AD oracle supplying the scale only. "
             "Non-trivial as for the residual checks (on the simpler case); distinct = distinct (pair, both assignments, points) hashes.")
 CHECKS["C20"] = num_check("C20", 2000, 24000, binary="c20", with_prop=False, rule=C20_RULE,
                           assumptions=["the reference operator is used only as the scale of the comparison, never in the verdict",
